@@ -137,7 +137,7 @@ class SetCurrentArea(Contract):
     def post(self, S, old, env, result):
         s = env["self"]
         f = s.fields
-        need = ("num_points", "num_points_with_boundary", "lowerBorder", "upperBorder", "coords", "weights", "start", "end")
+        need = ("num_points", "num_points_with_boundary", "lowerBorder", "upperBorder", "coords", "weights", "start", "end", "length", "level")
         if not all(k in f for k in need) or not isinstance(f["coords"], Seq) or not isinstance(f["weights"], Seq):
             return [Cl("sets-fields", False)]
         c, w = f["coords"].to_symbolic(), f["weights"].to_symbolic()
@@ -145,7 +145,11 @@ class SetCurrentArea(Contract):
         i = z3.Int("si")
         lo, nwb = f["lowerBorder"], f["num_points_with_boundary"]
         multi = z3.Not(z3.And(z3.Not(f["boundary"]), npts == 1))
+        from pyvc import values as Vv
         return [Cl("sets-fields", True),
+                # the box the families scale their reference rule with (Clenshaw-Curtis, Gauss-Legendre and Leja multiply by self.length)
+                Cl("records-the-sub-box", z3.And(Vv.to_z3(f["start"], True) == old["start"], Vv.to_z3(f["end"], True) == old["end"],
+                                                 Vv.to_z3(f["length"], True) == old["end"] - old["start"], f["level"] == old["level"])),
                 Cl("announced-count", npts == announced(s, old["level"])),
                 Cl("returns-as-many-points-as-announced", V(c.len()) == npts, prop=True),
                 Cl("as-many-weights-as-points", V(w.len()) == npts, prop=True),
